@@ -12,11 +12,11 @@ import (
 
 func init() {
 	register(&PropRules{
-		ID: "C06",
+		ID:      "C06",
 		Explain: "Guard structure of the web API decided on every CFG path of every registered handler (handlers are discovered from the webHandler{…,H} literals): (C06.1) Store.Add/Remove/SetAdmin/List/ListFull are called only under sessions.Check(request.Session) status==200 ∧ isAdmin; (C06.2) Store.Update(T,·) only under status==200 ∧ (isAdmin ∨ session user == T) with Session≠\"\" ∧ OldPassword==\"\", or under Store.Authenticate(T, OldPassword) ok ∧ err==nil with Session==\"\" ∧ OldPassword≠\"\"; (C06.3) sessions.Generate(U,A) only under Store.Authenticate(U,·) ok ∧ err==nil with A the store-reported flag; (C06.4) every status-200 response is under the handler's gate and, for mutating handlers, under the store call's err==nil; list payloads come only from Store.List/ListFull; (C06.5) every request field handed to sessions.Check or the Store is known non-empty; (C06.6) the Store mutators are called only from gated handlers and CLI actions, never from functions reachable from the SASL/LDAP/basic-auth/authenticate roots.",
-		Undec: []string{"sessions.Check itself (C07)", "JSON decoding ambiguities (duplicate keys, case-insensitive field match) inside encoding/json", "byte-for-byte equality of the store at run time (follows from 'no mutator call' + C15)", "closure under request sequences"},
-		Run:   runC06,
-		Floors: map[string]int{"C06.1": 5, "C06.2": 1, "C06.3": 1, "C06.4": 8, "C06.5": 8, "C06.6": 5},
+		Undec:   []string{"sessions.Check itself (C07)", "JSON decoding ambiguities (duplicate keys, case-insensitive field match) inside encoding/json", "byte-for-byte equality of the store at run time (follows from 'no mutator call' + C15)", "closure under request sequences"},
+		Run:     runC06,
+		Floors:  map[string]int{"C06.1": 5, "C06.2": 1, "C06.3": 1, "C06.4": 8, "C06.5": 8, "C06.6": 5},
 	})
 }
 
@@ -147,8 +147,8 @@ func runC06(c *an.Ctx, p *an.Prog, thorough bool) {
 		// classify by the Store methods it calls
 		var ops []string
 		var sites []ssa.CallInstruction
-		for _, b := range fn.Blocks {
-			for _, in := range b.Instrs {
+		for _, in := range an.DeepInstrs(fn) {
+			{
 				if ci, ok := in.(ssa.CallInstruction); ok {
 					n := an.CalleeName(ci)
 					if strings.HasPrefix(n, storeM) {
@@ -362,8 +362,8 @@ func c064(c *an.Ctx, p *an.Prog, h Root, fn *ssa.Function) {
 		})
 	}
 	// raw WriteHeader(200) (basic-auth)
-	for _, b := range fn.Blocks {
-		for _, in := range b.Instrs {
+	for _, in := range an.DeepInstrs(fn) {
+		{
 			ci, ok := in.(ssa.CallInstruction)
 			if !ok || !ci.Common().IsInvoke() || ci.Common().Method.Name() != "WriteHeader" {
 				continue
@@ -381,8 +381,8 @@ func c064(c *an.Ctx, p *an.Prog, h Root, fn *ssa.Function) {
 		}
 	}
 	// list payload provenance
-	for _, b := range fn.Blocks {
-		for _, in := range b.Instrs {
+	for _, in := range an.DeepInstrs(fn) {
+		{
 			st, ok := in.(*ssa.Store)
 			if !ok {
 				continue
@@ -418,8 +418,8 @@ func c064(c *an.Ctx, p *an.Prog, h Root, fn *ssa.Function) {
 func c065(c *an.Ctx, p *an.Prog, h Root, fn *ssa.Function) {
 	var bad []string
 	n := 0
-	for _, b := range fn.Blocks {
-		for _, in := range b.Instrs {
+	for _, in := range an.DeepInstrs(fn) {
+		{
 			ci, ok := in.(ssa.CallInstruction)
 			if !ok {
 				continue
